@@ -6,6 +6,7 @@ import (
 	"fmt"
 	"os"
 	"path/filepath"
+	"sort"
 	"strings"
 
 	"github.com/sdcio/yang-parser/compile"
@@ -13,6 +14,7 @@ import (
 	"github.com/sdcio/yang-parser/schema"
 
 	"verif/harness/internal/schemadump"
+	"verif/harness/internal/scm"
 	"verif/harness/internal/wkm"
 )
 
@@ -34,11 +36,424 @@ func compileTexts(texts map[string]string, ext compile.Extensions) (ms schema.Mo
 	return compile.CompileParseTrees(ext, trees, compile.FeaturesFromNames(true), false, nil)
 }
 
+// HC is a hook call in the terms of spec/SchemaWalkExt.tla.
+type HC struct {
+	Hook string   `json:"hook"`
+	Path []string `json:"path"`
+	Arg  string   `json:"arg"`
+	Base string   `json:"base"`
+	Nk   int      `json:"nk"`
+}
+
+type modSeq struct {
+	Mod string `json:"mod"`
+	Seq []HC   `json:"seq"`
+}
+
+type failAt struct {
+	Mod string `json:"mod"`
+	N   int    `json:"n"`
+}
+
+type failVec struct {
+	Fail struct {
+		Hook string `json:"hook"`
+		Arg  string `json:"arg"`
+	} `json:"fail"`
+	At  []failAt `json:"at"`
+	Set bool     `json:"set"`
+}
+
+type mustVec struct {
+	Ext   string         `json:"ext"`
+	Nodes []wkm.MustNode `json:"nodes"`
+}
+
+type extVec struct {
+	ID      int        `json:"id"`
+	Mods    []scm.Stmt `json:"mods"`
+	Calls   []modSeq   `json:"calls"`
+	SetCall HC         `json:"setcall"`
+	Fails   []failVec  `json:"fails"`
+	Musts   []mustVec  `json:"musts"`
+}
+
+func textsOf(v extVec) map[string]string {
+	texts := map[string]string{}
+	for _, m := range v.Mods {
+		texts[m.Arg[0]] = scm.Render(m)
+	}
+	return texts
+}
+
+var nodeHooks = map[string]bool{"container": true, "list": true, "leaf": true, "leaflist": true, "choice": true, "case": true}
+
+// resolve turns the recorded calls of a successful wrapping compilation into specification calls:
+// node hooks get the path where their wrapper sits in the compiled model set, type calls the path of
+// the leaf / leaf-list hook that follows them, must calls the path of the hook with the same parse node.
+func resolve(rec *wkm.Recorder, placed []wkm.Placed) ([]HC, []string) {
+	problems := []string{}
+	where := map[int][]string{}
+	count := map[int]int{}
+	for _, p := range placed {
+		if p.Id == 0 {
+			problems = append(problems, "object-not-from-a-hook:"+p.Kind+":"+strings.Join(p.Path, "/"))
+			continue
+		}
+		count[p.Id]++
+		where[p.Id] = p.Path
+	}
+	// the tree a model was built from is not reachable on its own: it sits where the model sits
+	for model, tree := range rec.TreeOf {
+		if p, ok := where[model]; ok {
+			where[tree] = p
+			count[tree]++
+		}
+	}
+	out := make([]HC, len(rec.Calls))
+	for i, c := range rec.Calls {
+		h := HC{Hook: c.Hook, Arg: c.Arg, Base: c.Base, Nk: c.Built, Path: []string{"?"}}
+		switch {
+		case c.Hook == "type" || c.Hook == "must":
+			if c.Hook == "must" {
+				h.Base = ""
+			}
+		default:
+			if p, ok := where[c.Id]; ok {
+				h.Path = p
+				if count[c.Id] > 1 {
+					problems = append(problems, "wrapper-placed-twice:"+c.Hook+":"+c.Name)
+				}
+			} else {
+				h.Path = []string{"?orphan"}
+				problems = append(problems, "replacement-not-in-the-tree:"+c.Hook+":"+c.Name)
+			}
+		}
+		out[i] = h
+	}
+	for i, c := range rec.Calls {
+		switch c.Hook {
+		case "type":
+			for j := i + 1; j < len(rec.Calls); j++ {
+				if rec.Calls[j].Hook == "leaf" || rec.Calls[j].Hook == "leaflist" {
+					out[i].Path = out[j].Path
+					break
+				}
+				if rec.Calls[j].Hook != "type" && rec.Calls[j].Hook != "must" {
+					break
+				}
+			}
+		case "must":
+			for j := 0; j < len(rec.Calls); j++ {
+				if j != i && rec.Calls[j].Hook != "must" && rec.Calls[j].Hook != "type" && rec.PNodes[j] != nil && rec.PNodes[j] == rec.PNodes[i] {
+					out[i].Path = out[j].Path
+					break
+				}
+			}
+		}
+	}
+	return out, problems
+}
+
+func proj(cs []HC) []HC {
+	out := make([]HC, len(cs))
+	for i, c := range cs {
+		out[i] = HC{Hook: c.Hook, Arg: c.Arg, Base: c.Base, Nk: c.Nk, Path: []string{}}
+	}
+	return out
+}
+
+func rawCalls(rec *wkm.Recorder) []HC {
+	out := []HC{}
+	for _, c := range rec.Calls {
+		h := HC{Hook: c.Hook, Arg: c.Arg, Base: c.Base, Nk: c.Built, Path: []string{}}
+		if c.Hook == "must" {
+			h.Base = ""
+		}
+		out = append(out, h)
+	}
+	return out
+}
+
+// diffSeq: where and how an observed call sequence departs from the prescribed one.
+func diffSeq(want, got []HC) (string, HC) {
+	n := len(want)
+	if len(got) < n {
+		n = len(got)
+	}
+	for i := 0; i < n; i++ {
+		if canon(want[i]) != canon(got[i]) {
+			bag := map[string]int{}
+			for _, c := range want {
+				bag[canon(c)]++
+			}
+			for _, c := range got {
+				bag[canon(c)]--
+			}
+			same := true
+			for _, v := range bag {
+				if v != 0 {
+					same = false
+				}
+			}
+			if same {
+				return "order", want[i]
+			}
+			w, g := want[i], got[i]
+			if w.Hook == g.Hook && canon(w.Path) == canon(g.Path) {
+				return "arguments", w
+			}
+			if bag[canon(w)] > 0 {
+				return "call-missing", w
+			}
+			return "call-extra", g
+		}
+	}
+	if len(got) < len(want) {
+		return "call-missing", want[len(got)]
+	}
+	if len(got) > len(want) {
+		return "call-extra", got[len(want)]
+	}
+	return "", HC{}
+}
+
+func replayExt(args []string) {
+	fs := flag.NewFlagSet("replay-ext", flag.ExitOnError)
+	out := fs.String("out", "res_ext.ndjson", "mismatches")
+	fs.Parse(args)
+	w := create(*out)
+	defer w.close()
+	evals, mism, hooks, vecs := 0, 0, 0, 0
+	report := func(v extVec, what string, detail interface{}, call HC) {
+		mism++
+		w.put(map[string]interface{}{"id": v.ID, "what": what, "detail": detail, "hook": call.Hook, "call": call, "texts": textsOf(v)})
+	}
+	for _, f := range fs.Args() {
+		eachLine(f, func(b []byte) {
+			var v extVec
+			if err := json.Unmarshal(b, &v); err != nil {
+				die("%s: %v", f, err)
+			}
+			vecs++
+			texts := textsOf(v)
+			want := map[string][]HC{}
+			for _, m := range v.Calls {
+				for i := range m.Seq {
+					if m.Seq[i].Path == nil {
+						m.Seq[i].Path = []string{}
+					}
+				}
+				want["m:"+m.Mod] = m.Seq
+			}
+			if v.SetCall.Path == nil {
+				v.SetCall.Path = []string{}
+			}
+			// 1. no Extensions, identity Extensions, wrapping Extensions: the same schema
+			msNil, err := compileTexts(texts, nil)
+			if err != nil {
+				die("vector %d does not compile: %v\n%v", v.ID, err, texts)
+			}
+			dumpNil := schemadump.JSON(schemadump.Dump(msNil))
+			idr := &wkm.Recorder{Mode: "identity"}
+			msId, err := compileTexts(texts, idr)
+			evals++
+			if err != nil {
+				report(v, "identity-extensions-fail", err.Error(), HC{})
+			} else if schemadump.JSON(schemadump.Dump(msId)) != dumpNil {
+				report(v, "identity-extensions-change-the-schema", "", HC{})
+			}
+			rec := &wkm.Recorder{Mode: "wrap"}
+			ms, err := compileTexts(texts, rec)
+			evals++
+			hooks += len(rec.Calls)
+			if err != nil {
+				report(v, "wrapping-extensions-fail", err.Error(), HC{})
+				return
+			}
+			if schemadump.JSON(schemadump.Dump(ms)) != dumpNil {
+				report(v, "forwarding-wrappers-change-the-schema", "", HC{})
+			}
+			noNk := func(cs []HC) []HC {
+				for i := range cs {
+					cs[i].Nk = 0 // an identity hook returns no wrapper that could be counted
+				}
+				return cs
+			}
+			if canon(noNk(rawCalls(idr))) != canon(noNk(rawCalls(rec))) {
+				report(v, "calls-depend-on-what-hooks-return", "", HC{})
+			}
+			// 2. the calls, module by module
+			placed, merged := wkm.Locate(ms)
+			obs, problems := resolve(rec, placed)
+			for _, p := range problems {
+				parts := strings.SplitN(p, ":", 3)
+				report(v, parts[0], p, HC{Hook: parts[1]})
+			}
+			if len(problems) > 0 {
+				return // without the places of the replacements the calls have no paths to be compared by
+			}
+			ids := map[int]bool{}
+			for _, p := range placed {
+				if len(p.Path) > 1 && p.Path[1] != "rpc:" && p.Path[1] != "notification:" {
+					ids[p.Id] = true
+				}
+			}
+			for _, id := range merged {
+				if !ids[id] {
+					report(v, "merged-tree-holds-other-nodes", id, HC{})
+					break
+				}
+			}
+			seqBad := false
+			if len(obs) == 0 || obs[len(obs)-1].Hook != "modelset" {
+				report(v, "modelset-call-not-last", "", v.SetCall)
+				seqBad = true
+			} else {
+				if canon(obs[len(obs)-1]) != canon(v.SetCall) {
+					report(v, "arguments", map[string]interface{}{"want": v.SetCall, "got": obs[len(obs)-1]}, v.SetCall)
+					seqBad = true
+				}
+				obs = obs[:len(obs)-1]
+			}
+			got := map[string][]HC{}
+			order := []string{}
+			for _, c := range obs {
+				m := "?"
+				if len(c.Path) > 0 {
+					m = c.Path[0]
+				}
+				if len(order) == 0 || order[len(order)-1] != m {
+					order = append(order, m)
+				}
+				got[m] = append(got[m], c)
+			}
+			seen := map[string]bool{}
+			for _, m := range order {
+				if seen[m] && !strings.HasPrefix(m, "?") {
+					report(v, "modules-interleaved", order, HC{})
+					seqBad = true
+				}
+				seen[m] = true
+			}
+			names := []string{}
+			for m := range want {
+				names = append(names, m)
+			}
+			for m := range got {
+				if _, ok := want[m]; !ok {
+					names = append(names, m)
+				}
+			}
+			sort.Strings(names)
+			for _, m := range names {
+				if strings.HasPrefix(m, "?") {
+					continue // calls whose replacement is nowhere in the tree: reported above
+				}
+				if what, c := diffSeq(want[m], got[m]); what != "" {
+					report(v, what, map[string]interface{}{"module": m, "want": want[m], "got": got[m]}, c)
+					seqBad = true
+				}
+			}
+			if seqBad || len(problems) > 0 {
+				return // the refusal and replacement runs below presuppose the call sequence
+			}
+			// 3. a hook that refuses: the compilation stops there with an error
+			for _, fv := range v.Fails {
+				fr := &wkm.Recorder{Mode: "wrap", FailHook: fv.Fail.Hook, FailName: fv.Fail.Arg}
+				_, ferr := compileTexts(texts, fr)
+				evals++
+				fc := HC{Hook: fv.Fail.Hook, Arg: fv.Fail.Arg}
+				if ferr == nil {
+					report(v, "refusal-ignored", fv.Fail, fc)
+					continue
+				}
+				if strings.HasPrefix(ferr.Error(), "panic:") {
+					report(v, "refusal-panics", ferr.Error(), fc)
+					continue
+				}
+				raw := rawCalls(fr)
+				// split at the model calls
+				var segs [][]HC
+				cur := []HC{}
+				for _, c := range raw {
+					cur = append(cur, c)
+					if c.Hook == "model" {
+						segs = append(segs, cur)
+						cur = []HC{}
+					}
+				}
+				full := map[string]string{}
+				prefix := map[string]string{}
+				for _, a := range fv.At {
+					seq := proj(want["m:"+a.Mod])
+					if a.N == 0 {
+						full[canon(seq)] = a.Mod
+					} else {
+						prefix[canon(seq[:a.N])] = a.Mod
+					}
+				}
+				ok := true
+				for _, s := range segs {
+					if _, isFull := full[canon(s)]; !isFull {
+						if _, isPre := prefix[canon(s)]; !(isPre && len(cur) == 0 && canon(s) == canon(segs[len(segs)-1])) {
+							ok = false
+						}
+					}
+				}
+				last := cur
+				if len(last) == 0 && len(segs) > 0 {
+					last = segs[len(segs)-1]
+				}
+				if len(prefix) > 0 {
+					if _, isPre := prefix[canon(last)]; !isPre {
+						ok = false
+					}
+				} else {
+					// only the model set's call is refused: every module complete, then that call
+					if !(fv.Set && len(cur) == 1 && canon(cur[0]) == canon(proj([]HC{v.SetCall})[0]) && len(segs) == len(fv.At)) {
+						ok = false
+					}
+				}
+				if !ok {
+					report(v, "refusal-does-not-stop-there", map[string]interface{}{"fail": fv.Fail, "got": raw}, fc)
+				}
+			}
+			// 4. ExtendMust's replacement
+			for _, mv := range v.Musts {
+				mr := &wkm.Recorder{Mode: "identity", MustExt: mv.Ext}
+				mms, merr := compileTexts(texts, mr)
+				evals++
+				if merr != nil {
+					report(v, "must-replacement-fails", map[string]string{"ext": mv.Ext, "err": merr.Error()}, HC{Hook: "must"})
+					continue
+				}
+				gotM := wkm.MustsOf(mms)
+				key := func(ns []wkm.MustNode) string {
+					xs := []string{}
+					for _, n := range ns {
+						if n.Texts == nil {
+							n.Texts = []string{}
+						}
+						xs = append(xs, canon(n))
+					}
+					sort.Strings(xs)
+					return canon(xs)
+				}
+				if key(gotM) != key(mv.Nodes) {
+					report(v, "must-replacement", map[string]interface{}{"ext": mv.Ext, "want": mv.Nodes, "got": gotM}, HC{Hook: "must"})
+				}
+			}
+		})
+	}
+	fmt.Println(canon(map[string]int{"evaluations": evals, "mismatches": mism, "hook_calls": hooks, "vectors": vecs}))
+}
+
 func probeExt(args []string) {
 	fs := flag.NewFlagSet("probe-ext", flag.ExitOnError)
 	mode := fs.String("mode", "wrap", "wrap | identity")
 	fh := fs.String("failhook", "", "hook that returns an error")
-	fn := fs.String("failname", "", "... for the node of this name")
+	fn := fs.String("failname", "", "... for the parse node with this argument")
 	mx := fs.String("mustext", "", "replacement expression returned by ExtendMust")
 	dump := fs.Bool("dump", false, "print the canonical dump too")
 	fs.Parse(args)
@@ -52,17 +467,23 @@ func probeExt(args []string) {
 	}
 	rec := &wkm.Recorder{Mode: *mode, FailHook: *fh, FailName: *fn, MustExt: *mx}
 	ms, err := compileTexts(texts, rec)
-	for _, c := range rec.Calls {
-		b, _ := json.Marshal(c)
-		fmt.Println(string(b))
-	}
 	if err != nil {
+		for _, c := range rec.Calls {
+			fmt.Println(canon(c))
+		}
 		fmt.Println("ERROR:", err)
 		return
 	}
-	for _, p := range wkm.Locate(ms) {
-		b, _ := json.Marshal(p)
-		fmt.Println("placed", string(b))
+	placed, _ := wkm.Locate(ms)
+	obs, problems := resolve(rec, placed)
+	for _, c := range obs {
+		fmt.Println(canon(c))
+	}
+	for _, p := range problems {
+		fmt.Println("PROBLEM", p)
+	}
+	for _, m := range wkm.MustsOf(ms) {
+		fmt.Println("musts", canon(m))
 	}
 	if *dump {
 		fmt.Println(schemadump.JSON(schemadump.Dump(ms)))
